@@ -89,7 +89,14 @@ def match_finding(findings, prop, vrec, cfg):
             continue
         ok = True
         for key, want in f.get("trigger", {}).items():
-            if key == "detail_in":
+            if key == "detail_has_path":
+                for k2, w2 in want.items():
+                    d = v["detail"]
+                    for part in k2.split("."):
+                        d = d.get(part) if isinstance(d, dict) else None
+                    if d != w2:
+                        ok = False
+            elif key == "detail_in":
                 d = v["detail"]
                 for k2, w2 in want.items():
                     if not isinstance(d, dict) or d.get(k2) not in w2:
